@@ -475,3 +475,9 @@ brk("C04", "c04-seq-implicit-end-own-axis", ELS, "child_element.desired_end + se
 brk("C04", "c04-end-from-desired-begin", ELS, "        self.desired_end = self.implicit_begin + self.explicit_end\n\n      else:", "        self.desired_end = parent_ctx.desired_begin + self.explicit_end\n\n      else:", "FRAME-time",
     "end measured from the parent's begin on the grandparent's axis")
 ben("C04", "c04-benign-par-implicit-end-swapped", ELS, "max(self.implicit_end, self.desired_begin + child_element.desired_end)", "max(child_element.desired_end + self.desired_begin, self.implicit_end)", "operands swapped")
+brk("C03", "c03-anim-first-wins", ISD, "    for anim_step in element.iter_animation_steps():\n\n", "    for anim_step in element.iter_animation_steps():\n\n      if isd_element.has_style(anim_step.style_property):\n        continue\n\n", "ORD-animlast",
+    "of two overlapping set steps the first wins")
+brk("C01", "c01-display-before-animation", ISD, "      activity_cache[element] = True\n", "      if element.get_style(styles.StyleProperties.Display) is styles.DisplayType.none:\n        activity_cache[element] = False\n        return None\n\n      activity_cache[element] = True\n", "PRUNE-sites",
+    "specified display=none prunes before the set steps are applied")
+brk("C13", "c13-prev-lwsp-space-only", ISD, 'prev_text[-1] in ("\\t", "\\r", "\\n", " ")', 'prev_text[-1] == " "', "FIN-lwsp", "a preserved tab / line feed before default white space no longer counts as white space")
+brk("C04", "c04-prev-lwsp-space-only", ISD, 'prev_text[-1] in ("\\t", "\\r", "\\n", " ")', 'prev_text[-1] == " "', "FIN-lwsp", "shared with C13")
